@@ -9,6 +9,8 @@ encoder with all freedoms (Spec/BocEncode.lean).  `none` = the library raises.
 import TonVerif.Proofs.BocParse
 import TonVerif.Proofs.SrcBocHeader
 import TonVerif.Proofs.SrcBocCell
+import TonVerif.Proofs.SrcBocCells
+import TonVerif.Proofs.SrcBocDeser
 import TonVerif.Properties.C01
 
 namespace TonVerif.Properties.C05
@@ -236,5 +238,74 @@ open TonVerif.Generated.BocHeader in
 /-- and a rejected one (one byte missing): both raise. -/
 example : header idxBag.dropLast = none ∧ deserializeBocHeader idxBag.dropLast = none := by
   constructor <;> decide +kernel
+
+/-! ## the whole cell record reader of the working tree (regenerated from the source on every run) -/
+
+open TonVerif.Generated.BocCells in
+/-- SOURCE TIE for the cell record reader: `Generated.BocCells.deserialize_cell` is regenerated on every run from the text of
+the WHOLE `Boc.deserialize_cell` (pytoniq_core/boc/deserialize.py; translator harness/translate/pyloops.py: `bitarray()`,
+`frombytes`, the completion-tag loop `for j in range(-1, -8, -1)` with `break`, `bits[:end]` with `end` = `None` or a negative
+index, `TvmBitarray(1023, ..)`, `ba2int(bits[:8], signed=True)`, the reference-index loop with `append`, the returned
+`(dict, consumed)`).  For EVERY byte list and EVERY index width it raises exactly when the hand model's `deserializeCell`
+(about which all theorems above are proved) returns `none`, and otherwise returns the same data bits, reference indices,
+cell type (`-1` or the signed first data byte), `'result': None`, and the same number of consumed bytes. -/
+theorem c05_src_deserialize_cell {R : Type} (data : Bytes) (refSize : Nat) :
+    deserialize_cell (R := R) data refSize =
+      (deserializeCell data refSize).map fun p => (CellOut.ofModel p.1, p.2) :=
+  TonVerif.Proofs.SrcBocCells.src_deserialize_cell_eq data refSize
+
+open TonVerif.Generated.BocCells in
+/-- non-vacuity of `c05_src_deserialize_cell`: an exotic record (type byte 0xFE = -2) with 3 data bytes whose completion tag
+is the fourth-last bit, and two references of width 2; both functions return the 20 data bits, `[5, 258]`, `-2`, 9 bytes. -/
+example : deserialize_cell (R := Unit) [0x0a, 0x05, 0xfe, 0x12, 0x38, 0, 5, 1, 2, 0xff] 2 =
+      some ({ bits := bytesToBits [0xfe, 0x12] ++ [false, false, true, true], refs := [5, 258], type := -2, result := none }, 9) ∧
+    deserializeCell [0x0a, 0x05, 0xfe, 0x12, 0x38, 0, 5, 1, 2, 0xff] 2 =
+      some ({ bits := bytesToBits [0xfe, 0x12] ++ [false, false, true, true], refs := [5, 258], type := -2 }, 9) := by
+  constructor <;> decide +kernel
+
+open TonVerif.Generated.BocCells in
+/-- and a rejected one (an exotic record with fewer than eight data bits): both raise. -/
+example : deserialize_cell (R := Unit) [0x08, 0x01, 0x90] 1 = none ∧ deserializeCell [0x08, 0x01, 0x90] 1 = none := by
+  constructor <;> decide +kernel
+
+/-! ## `Boc.deserialize` of the working tree (regenerated from the source on every run) -/
+
+open TonVerif.Generated.BocCells in
+/-- SOURCE TIE for the parser entry point: `Generated.BocCells.deserialize` is regenerated on every run from the text of
+`Boc.deserialize` (pytoniq_core/boc/deserialize.py): the call of `deserialize_boc_header(self.data)`, the first loop
+(`deserialize_cell` on `cells_data[i:]`, `i += j`, `cells_array.append`), the second loop over `reversed(range(cells_num))`
+with the inner reference loop, the topological-order check `r < ci`, the constructor call and the in-place update
+`cells_array[ci]['result'] = ..`, and the third loop over `root_list`.  It calls the regenerated header parser and the
+regenerated cell reader (`c05_src_header`, `c05_src_deserialize_cell`).  The cell constructor `cls` stays a parameter: for EVERY
+byte list and EVERY constructor model `mk`, the regenerated function with the callback `liftMk mk` (= `mk` on the children,
+raising when a child is `None`, which is what a self reference picks up) raises exactly when the hand model
+`Model.BocParse.deserialize mk` - about which `c05_accepts`, `c05_trunc_ext`, `c05_crc_single_bit`, `c05_bad_refs` are proved -
+returns `none`, and otherwise returns the same list of roots.  What is left to the hand model + sampled correspondence:
+`Boc.__init__` (bytes / hex / base64 detection) and the cell constructor itself (Model/Cell.lean: C01 / C02). -/
+theorem c05_src_deserialize {R : Type} (mk : Bits → List R → Int → Option R) (data : Bytes) :
+    Generated.BocCells.deserialize data (liftMk mk) = (Model.BocParse.deserialize mk data).map (·.map some) :=
+  TonVerif.Proofs.SrcBocDeser.src_deserialize_eq mk data
+
+open TonVerif.Generated.BocCells in
+/-- the same for `Cell.from_boc` on bytes: the regenerated parser run with the constructor model of Model/Cell.lean. -/
+theorem c05_src_from_boc (H : Bytes → Bytes) (data : Bytes) :
+    Generated.BocCells.deserialize data (liftMk (mkCell H)) = (fromBoc H data).map (·.map some) :=
+  c05_src_deserialize (mkCell H) data
+
+/-- a constructor that just records what it is given (data length, number of children, then the children's records). -/
+def mkFlat (bits : Bits) (refs : List (List Nat)) (_ty : Int) : Option (List Nat) := some (bits.length :: refs.length :: refs.flatten)
+
+def triBag : Bytes := [0xb5, 0xee, 0x9c, 0x72, 1, 1, 3, 1, 0, 10, 0,  3, 0, 1, 1, 2,  1, 0, 2,  0, 0]
+def triBagSelf : Bytes := [0xb5, 0xee, 0x9c, 0x72, 1, 1, 3, 1, 0, 10, 0,  3, 0, 0, 1, 2,  1, 0, 2,  0, 0]
+
+open TonVerif.Generated.BocCells in
+/-- non-vacuity of `c05_src_deserialize`: a three-cell bag (root with two references to the same child and one to a leaf; the
+child refers to the leaf) parsed with `mkFlat`: both functions return the root with its children; with the root's first
+reference rewritten to the root itself both raise. -/
+example :
+    Generated.BocCells.deserialize triBag (liftMk mkFlat) = some [some [0, 3, 0, 1, 0, 0, 0, 1, 0, 0, 0, 0]] ∧
+    Model.BocParse.deserialize mkFlat triBag = some [[0, 3, 0, 1, 0, 0, 0, 1, 0, 0, 0, 0]] ∧
+    Generated.BocCells.deserialize triBagSelf (liftMk mkFlat) = none ∧ Model.BocParse.deserialize mkFlat triBagSelf = none := by
+  decide +kernel
 
 end TonVerif.Properties.C05
